@@ -48,6 +48,9 @@ int main(int argc, char ** argv)
   if (!std::strcmp(s, "SharedVariable")) {
     SharedVariable<Pair> v(Pair{0, 0});
     race([&](int i) {v.store(Pair{i, i * 0.5});}, [&](int) {Pair p = v.load(); if (p.b != p.a * 0.5) {std::printf("TORN\n");}});
+  } else if (!std::strcmp(s, "SharedVariableSmall")) {
+    SharedVariable<double> v(0.0);
+    race([&](int i) {v.store(i * 0.5);}, [&](int) {sink += v.load();});
   } else if (!std::strcmp(s, "SharedOptionalVariable")) {
     SharedOptionalVariable<long> v;
     race([&](int i) {v.store(i);}, [&](int) {auto c = v.consume(); if (c) {sink += *c;}});
